@@ -69,6 +69,42 @@ impl Val for Coarse {
         (self.key as u16 as u64) | (self.payload as u64) << 16
     }
 }
+/// Entries wider than a machine word: with the 8-byte hash beside them the slots are 24, 24 and 48
+/// bytes, none of them a power of two.
+#[derive(Clone, Copy, Debug, PartialEq, PartialOrd)]
+pub struct Wide(pub u64, pub u64);
+#[derive(Clone, Copy, Debug, PartialEq, PartialOrd)]
+pub struct Tri(pub [u32; 3]);
+#[derive(Clone, Copy, Debug, PartialEq, PartialOrd)]
+pub struct Big(pub [u64; 5]);
+fn mix(words: &[u64]) -> u64 {
+    words.iter().fold(0x9E37_79B9_7F4A_7C15u64, |a, w| (a ^ w).wrapping_mul(0xFF51_AFD7_ED55_8CCD).rotate_left(29))
+}
+impl Val for Wide {
+    fn of(v: u32) -> Wide {
+        Wide((v % 8) as u64, (v as u64).wrapping_mul(0x0101_0101_0101_0101) | 1 << 63)
+    }
+    fn bits(&self) -> u64 {
+        mix(&[self.0, self.1])
+    }
+}
+impl Val for Tri {
+    fn of(v: u32) -> Tri {
+        Tri([v % 8, v.rotate_left(7) | 0x8000_0000, !v])
+    }
+    fn bits(&self) -> u64 {
+        mix(&[self.0[0] as u64, self.0[1] as u64, self.0[2] as u64])
+    }
+}
+impl Val for Big {
+    fn of(v: u32) -> Big {
+        let x = v as u64;
+        Big([x % 8, x << 32 | 0xA5, !x, x.wrapping_mul(0x9E37_79B9), x ^ 0xFFFF_0000_FFFF_0000])
+    }
+    fn bits(&self) -> u64 {
+        mix(&self.0)
+    }
+}
 impl Val for f64 {
     fn of(v: u32) -> f64 {
         // includes -0.0 (v = 0), which == cannot tell from the all-zero bit pattern +0.0, and NaN
@@ -84,6 +120,8 @@ impl Val for f64 {
         self.to_bits()
     }
 }
+
+pub const TYPES: [&str; 8] = ["u8", "u32", "Pair{i16,u8}", "Coarse{key,payload}(== on key only)", "f64", "Wide(u64,u64)", "Tri([u32;3])", "Big([u64;5])"];
 
 #[derive(Clone, Debug)]
 pub enum Op {
@@ -115,7 +153,7 @@ fn pred<T: Val>(kind: u8, arg: u32) -> impl Fn(T) -> bool {
 
 impl Program {
     pub fn to_json(&self) -> Value {
-        let ty = ["u8", "u32", "Pair{i16,u8}", "Coarse{key,payload}(== on key only)", "f64"][self.ty as usize % 5];
+        let ty = TYPES[self.ty as usize % TYPES.len()];
         json!({
             "size_log2": self.log2,
             "entry_type": ty,
@@ -136,6 +174,9 @@ impl Program {
             "u8" => 0,
             "u32" => 1,
             "f64" => 4,
+            "Wide(u64,u64)" => 5,
+            "Tri([u32;3])" => 6,
+            "Big([u64;5])" => 7,
             t if t.starts_with("Coarse") => 3,
             _ => 2,
         };
@@ -262,12 +303,16 @@ pub fn check_program(ctx: &mut Ctx, p: &Program) -> Result<(), Violation> {
     ctx.set_case(p.to_json());
     ctx.class(&format!("size:2^{}", p.log2));
     ctx.sample(|| p.to_json());
-    match p.ty % 5 {
+    ctx.class(&format!("entry:{}", TYPES[p.ty as usize % TYPES.len()]));
+    match p.ty % 8 {
         0 => run_typed::<u8>(ctx, p),
         1 => run_typed::<u32>(ctx, p),
         2 => run_typed::<Pair>(ctx, p),
         3 => run_typed::<Coarse>(ctx, p),
-        _ => run_typed::<f64>(ctx, p),
+        4 => run_typed::<f64>(ctx, p),
+        5 => run_typed::<Wide>(ctx, p),
+        6 => run_typed::<Tri>(ctx, p),
+        _ => run_typed::<Big>(ctx, p),
     }
 }
 
@@ -319,7 +364,7 @@ pub fn program_strategy(max_log2: u8, max_ops: usize) -> impl Strategy<Value = P
     // allocate twice per program and get one program in sixteen
     let small = max_log2.min(10);
     let log2s = prop_oneof![15 => 0u8..=small, 1 => small..=max_log2];
-    (log2s, 0u8..5, prop_oneof![Just(0u32), any::<u32>()], proptest::collection::vec(op, 0..max_ops), 0u8..8).prop_map(|(log2, ty, default, raw, temper)| {
+    (log2s, 0u8..8, prop_oneof![Just(0u32), any::<u32>()], proptest::collection::vec(op, 0..max_ops), 0u8..8).prop_map(|(log2, ty, default, raw, temper)| {
         let size = 1u64 << log2;
         // the temper of a program: an even mix of operations (half of the programs), or long runs
         // of one kind on one or two slots - conditional writes that are mostly refused, probes, or
@@ -454,7 +499,7 @@ pub fn run(cfg: &Cfg) -> i32 {
     engine::finish(
         report,
         EvidenceSpec {
-            rule: "cases = programs of 0-400 add / replace_if / get operations over tables of size 2^0..2^16 (2^20 thorough) with entry types u8, u32, a Copy struct, a struct whose == / ordering look at one field only, and f64 (-0.0 and two NaN bit patterns among the values): values are compared bit for bit; hashes are drawn to collide (same slot with different high bits, multiples of the size, bits above 32 or bit 63 only, 0, u64::MAX) and predicates (old<arg, old==arg, true, false) over a small value domain; half of the programs mix the operations evenly, the others are long runs of mostly refused conditional writes, of probes or of unconditional writes on one or two slots; after every operation and in a final scan of all touched hashes, stored hashes and slot probes, get() is compared with a vector model (slot = hash mod size, initial content (0, default)); plus a few tables of 2^21 and 2^22 entries driven with hashes that agree in their low 8-22 bits against a sparse model; plus CacheTable::new on 90+ non-power-of-two sizes (must panic) and on 2^0..2^20 (must not). evaluations = programs + sizes. Non-trivial = program with at least one collision overwrite and one refused replace_if; distinct = program fingerprints.".into(),
+            rule: "cases = programs of 0-400 add / replace_if / get operations over tables of size 2^0..2^16 (2^20 thorough) with entry types u8, u32, a Copy struct, a struct whose == / ordering look at one field only, f64 (-0.0 and two NaN bit patterns among the values) and three entries wider than a word (16, 12 and 40 bytes: slots of 24, 24 and 48 bytes): values are compared bit for bit; hashes are drawn to collide (same slot with different high bits, multiples of the size, bits above 32 or bit 63 only, 0, u64::MAX) and predicates (old<arg, old==arg, true, false) over a small value domain; half of the programs mix the operations evenly, the others are long runs of mostly refused conditional writes, of probes or of unconditional writes on one or two slots; after every operation and in a final scan of all touched hashes, stored hashes and slot probes, get() is compared with a vector model (slot = hash mod size, initial content (0, default)); plus a few tables of 2^21 and 2^22 entries driven with hashes that agree in their low 8-22 bits against a sparse model; plus CacheTable::new on 90+ non-power-of-two sizes (must panic) and on 2^0..2^20 (must not). evaluations = programs + sizes. Non-trivial = program with at least one collision overwrite and one refused replace_if; distinct = program fingerprints.".into(),
             assumptions: vec!["out-of-bounds accesses are observed through the unsafe-precondition checks of get_unchecked in the `checked` profile (abort -> fatal-signal handler -> violation) and through the libFuzzer+ASan target cache_prog in the thorough tier".into()],
             trusted_base: vec!["harness/src/props/c19.rs vector model".into(), "proptest 1.11".into()],
             exhaustive: None,
